@@ -709,8 +709,30 @@ class Gen:
         return c
 
     # --- rows
+    def flatseq(self, e: str, scope: List[str]) -> str:
+        """a sequence of numbers made by FLATTENING: seq.SelectMany(lambda t: inner).Select(lambda x: body)"""
+        s1 = self.objseq(e, scope, 0)
+        t, x = self.q.var("t"), self.q.var("x")
+        self.q.feat.add("flatseq")
+        self.q.ops += 2
+        if self.r.random() < 0.5:
+            inner, _ = self.coll(e)
+            body = f"{x}.{self.r.choice(self.u.dbl_methods)}()"
+        else:
+            inner = f"{t}.{self.r.choice(['vals', 'hits'])}()"
+            body = self.r.choice([x, f"{x}*2"])
+        return f"{s1}.SelectMany(lambda {t}: {inner}).Select(lambda {x}: {body})"
+
     def column(self, e: str, scope: List[str], d: int, obj=None) -> str:
         k = self.r.random()
+        if obj is None and "flatseq" in self.allow and self.r.random() < 0.08:
+            if d > 1 and self.r.random() < 0.5:
+                s = self.objseq(e, scope, 0)
+                v = self.q.var("o")
+                self.q.feat.add("2d")
+                self.q.ops += 1
+                return f"{s}.Select(lambda {v}: {self.flatseq(e, scope + [v])})"
+            return self.flatseq(e, scope)
         if obj is None and k < 0.35:
             s, _ = self.numseq(e, scope, d)
             return s
@@ -892,6 +914,9 @@ SCALAR_GRAFTS = {
     "bare_lambda": "(lambda z: {a})",
     "method_on_number": "({a}+0.5).foo()",
     "complex_constant": "({a}+2j)",
+    # a built-in sequence source called with a number of arguments it does not have (a Python-style step, no bounds)
+    "range_step": "({a} + Range(0, 3, 2).Count())",
+    "range_no_args": "({a} + Range().Count())",
 }
 SCALAR_GRAFTS_OBJ = {
     # arithmetic on an object (every operator, either position): only numbers have arithmetic
@@ -931,6 +956,11 @@ SEQ_GRAFTS = {
     "agg_only": "{s}.Aggregate(lambda a, b: a + b)",
     "agg_func_seed": "{s}.Aggregate(lambda z: z, lambda a, b: a + b)",
     "agg_extra_arg": "{s}.Aggregate(0, lambda a, b: a + b, 1)",
+    # sequence operators called with the wrong number of arguments
+    "count_extra_arg": "{s}.Count(1)",
+    "first_extra_arg": "{s}.First(0)",
+    "select_two_lambdas": "{s}.Select(lambda z: z, lambda z: z).Count()",
+    "where_no_lambda": "{s}.Where().Count()",
 }
 PRED_GRAFTS = {
     # an unsupported construct BEHIND a literal that decides the and / or: Python would not evaluate it, the translator still
